@@ -1,29 +1,44 @@
 #!/bin/bash
 # build_worker.sh <scratch-dir> [race]
 # Copies /repo's working tree to <scratch>/ro, instruments it, and builds the harness test binary
-# <scratch>/worker.test against it. Exit 2 on any build trouble.
+# <scratch>/worker.test against it (Go workspace: scratch copy + /verif/harness + /verif/rosim).
+# Exit 2 on any build trouble.
 set -u
 S="$1"; RACE="${2:-}"
-export GOPROXY=off GOSUMDB=off GOTOOLCHAIN=local GOFLAGS=-mod=mod
+export GOPROXY=off GOSUMDB=off GOTOOLCHAIN=local GOFLAGS=
 V=/verif
 REPO="${VERIF_REPO:-/repo}"
 mkdir -p "$S" || exit 2
 rm -rf "$S/ro"
 rsync -a --exclude .git --exclude docs "$REPO"/ "$S/ro/" || exit 2
-[ -x $V/bin/instr ] || (cd $V/instr && go build -o $V/bin/instr .) || exit 2
-PKGS=". ./internal/..."
-( cd "$S/ro" && GOFLAGS= $V/bin/instr -dir . $PKGS ) > "$S/instr.log" 2>&1 || { cat "$S/instr.log" >&2; echo "instrumenter failed" >&2; exit 2; }
-# plugin modules used by the harness (each is its own module inside the workspace)
-for m in plugins/ratelimit/native plugins/ratelimit/ulule plugins/stdio plugins/encoding/csv ee/plugins/prometheus; do
+[ -x $V/bin/instr ] || (cd $V/instr && GOFLAGS=-mod=mod go build -o $V/bin/instr .) || exit 2
+MODS="plugins/ratelimit/native plugins/ratelimit/ulule plugins/stdio plugins/encoding/csv plugins/encoding/base64 plugins/encoding/json plugins/encoding/gob plugins/sort plugins/strconv plugins/regexp plugins/strings plugins/bytes plugins/time plugins/template ee/plugins/prometheus"
+( cd "$S/ro" && $V/bin/instr -dir . . ./internal/... ) > "$S/instr.log" 2>&1 || { cat "$S/instr.log" >&2; echo "instrumenter failed" >&2; exit 2; }
+for m in $MODS; do
   if [ -d "$S/ro/$m" ]; then
-    ( cd "$S/ro/$m" && GOFLAGS= $V/bin/instr -dir . . ) >> "$S/instr.log" 2>&1 || { cat "$S/instr.log" >&2; echo "instrumenter failed on $m" >&2; exit 2; }
+    # the type-checking load costs ~1 s per module: only load modules that contain something to rewrite
+    if ls "$S/ro/$m"/*.go | grep -v _test.go | xargs grep -lE '"sync"|"sync/atomic"|\btime\.(Now|Since|Until|Sleep|After|AfterFunc|NewTimer|NewTicker|Tick)\b|\bgo (func|[a-zA-Z_.]+\()|<-|select \{|\bclose\(|context\.With(Cancel|Timeout|Deadline)|runtime\.Gosched' >/dev/null 2>&1; then
+      ( cd "$S/ro/$m" && $V/bin/instr -dir . . ) >> "$S/instr.log" 2>&1 || { cat "$S/instr.log" >&2; echo "instrumenter failed on $m" >&2; exit 2; }
+    else
+      echo "instr: $m: nothing to rewrite (skipped by pre-filter)" >> "$S/instr.log"
+    fi
   fi
 done
-# harness go.mod pointing at the scratch copy
-sed -e "s#@SCRATCH@#$S#g" -e "s#@VERIF@#$V#g" $V/harness/go.mod.tmpl > "$S/harness.mod" || exit 2
-cat "$REPO"/go.sum "$REPO"/go.work.sum "$REPO"/plugins/*/go.sum "$REPO"/plugins/*/*/go.sum "$REPO"/ee/go.sum "$REPO"/ee/plugins/*/go.sum $V/harness/extra.sum 2>/dev/null | sort -u > "$S/harness.sum"
-TAGS="-tags verif"
+{
+  echo "go 1.26"
+  echo "use ("
+  echo "  $S/ro"
+  for m in $MODS; do [ -d "$S/ro/$m" ] && echo "  $S/ro/$m"; done
+  echo "  $V/harness"
+  echo "  $V/rosim"
+  echo ")"
+  echo "replace rosim v0.0.0 => $V/rosim"
+  echo "replace github.com/samber/ro v0.0.0 => $S/ro"
+  echo "replace github.com/samber/ro/ee v0.0.0 => $S/ro/ee"
+  for m in $MODS; do [ -d "$S/ro/$m" ] && echo "replace github.com/samber/ro/$m v0.0.0 => $S/ro/$m"; done
+} > "$S/go.work"
+cat "$REPO"/go.work.sum $V/harness/extra.sum 2>/dev/null | sort -u > "$S/go.work.sum"
 RFLAG=""
 [ "$RACE" = "race" ] && RFLAG="-race"
-( cd $V/harness && GOWORK=off go1.26.8 test -c $RFLAG $TAGS -modfile="$S/harness.mod" -o "$S/worker.test" . ) > "$S/build.log" 2>&1 || { cat "$S/build.log" >&2; echo "harness build failed" >&2; exit 2; }
+( cd $V/harness && GOWORK="$S/go.work" go1.26.8 test -c $RFLAG -tags verif -o "$S/worker.test" . ) > "$S/build.log" 2>&1 || { cat "$S/build.log" >&2; echo "harness build failed" >&2; exit 2; }
 exit 0
